@@ -127,6 +127,48 @@ def run(chk, S: Session):
     from .c02 import linearisation_threading
     for construct, ok, detail, where, cfg in linearisation_threading(S):
         r3.require(ok, construct, detail, f"constraint state not threaded: {detail}", where, cfg)
+    # initial state chain: handler.init_jacobian_handler() -> <Residual>.init_linearization() -> error estimator init_error()
+    from ..harness import DENSE, SOLVERS
+    for cls in handlers:
+        it = S.interp()
+        h = it.instantiate(it.class_value(f"{JAC}.{cls}"), [], {"seed": A("seed")} if "monte" in cls else {}, "<harness>")
+        try:
+            st0 = call(it, method(it, h, "init_jacobian_handler"))
+        except AnalysisError as e:
+            r3.unknown(f"{cls}.init_jacobian_handler", str(e), JAC)
+            continue
+        if "monte" in cls:
+            ok0 = isinstance(st0, T.Term) and st0.op == "random.prng_key" and (st0.kwargs.get("seed") is A("seed") or (st0.args and st0.args[0] is A("seed")))
+            r3.require(ok0, f"{cls}.init_jacobian_handler", "a PRNG key made from the handler's seed", f"{T.show(st0, 3)}", JAC, {"handler": cls})
+        else:
+            r3.require(not isinstance(st0, T.Term) or not T.atoms_of(st0), f"{cls}.init_jacobian_handler", "stateless", f"{T.show(st0, 3)}", JAC, {"handler": cls})
+        S.absorb(it)
+    for mod_, rcls in ((DENSE, "DenseResidual"), (ISO, "IsotropicResidual"), (BLOCK, "BlockDiagResidual")):
+        it = S.interp()
+        from .c11 import mk_res
+        res = mk_res(it, 2)
+        kw = {"taylor_point": A("tp")} if rcls == "DenseResidual" else {}
+        lin = it.instantiate(it.class_value(f"{mod_}.{rcls}"), [res], kw, "<harness>")
+        st0 = call(it, method(it, lin, "init_linearization"))
+        r3.require(st0 is T.mk("mcall", (A("jac"), "init_jacobian_handler")), f"{rcls}.init_linearization", "the residual's own handler's initial state", f"{T.show(st0, 3)}", mod_)
+        S.absorb(it)
+    for ecls in ("error_residual_std", "error_state_std"):
+        ci = S.p.find_class(f"{SOLVERS}.{ecls}")
+        if ci is None:
+            r3.unknown(f"{ecls}.init_error", "class not found", SOLVERS)
+            continue
+        it = S.interp()
+        init_node = ci.methods.get("__init__")
+        kws = {a_.arg: A(f"e.{a_.arg}") for a_ in (init_node.args.kwonlyargs if init_node else [])}
+        pos = [A(f"e.{a_.arg}") for a_ in (init_node.args.args[1:] if init_node else [])]
+        try:
+            est = it.instantiate(it.class_value(f"{SOLVERS}.{ecls}"), pos, kws, "<harness>")
+            st0 = call(it, method(it, est, "init_error"))
+        except AnalysisError as e:
+            r3.unknown(f"{ecls}.init_error", str(e), SOLVERS)
+            continue
+        r3.require(st0 is T.mk("mcall", (A("e.constraint"), "init_linearization")), f"{ecls}.init_error", "the estimator's own constraint's initial state", f"{T.show(st0, 3)}", SOLVERS)
+        S.absorb(it)
     # consumers: the isotropic / block-diagonal residual linearisations contract the block with the mean in the handler's layout
     from .c11 import _rfun_list, consumer_shapes, mk_res, strip_layout
     from ..harness import mcalls
